@@ -40,6 +40,12 @@ def sh(cmd, **kw):
 
 def build_harness(tags=None, race=False, out=None):
     os.makedirs(BUILD, exist_ok=True)
+    pre = os.environ.get("VERIF_HARNESS_BIN")
+    if pre and not race and out is None:
+        # bin/tiecoverage: a cover-instrumented harness built from a scratch copy of the same tree
+        global HARNESS_BIN
+        HARNESS_BIN = pre
+        return pre
     files = sorted(glob.glob(os.path.join(VERIF, "harness", "*.go")))
     ov = {"Replace": {os.path.join(REPO, "internal", "verifharness", os.path.basename(f)): f for f in files}}
     ovpath = os.path.join(BUILD, "overlay.json")
